@@ -433,3 +433,35 @@ func expandLocals(info *types.Info, body *ast.BlockStmt, e ast.Expr) ast.Expr {
 	}
 	return e
 }
+
+// inlineValue returns e with calls to unexported same-package helpers replaced by the value they
+// return, when the helper is a chain of single-definition locals followed by one `return <expr>`
+// (parameters and receiver replaced by the arguments). Applied repeatedly (depth 3).
+func inlineValue(p *core.Program, fi *core.FuncInfo, e ast.Expr, depth int) ast.Expr {
+	if depth > 3 || e == nil {
+		return e
+	}
+	info := fi.Pkg.TypesInfo
+	in := newInliner(p, fi, nil)
+	e = expandLocals(info, fi.Decl.Body, e)
+	call, ok := stripConvs(info, e).(*ast.CallExpr)
+	if !ok {
+		return e
+	}
+	cfi, repl := in.callee(call)
+	if cfi == nil || len(cfi.Decl.Body.List) == 0 {
+		return e
+	}
+	last, ok := cfi.Decl.Body.List[len(cfi.Decl.Body.List)-1].(*ast.ReturnStmt)
+	if !ok || len(last.Results) != 1 {
+		return e
+	}
+	for _, s := range cfi.Decl.Body.List[:len(cfi.Decl.Body.List)-1] {
+		if as, isAs := s.(*ast.AssignStmt); !isAs || as.Tok != token.DEFINE {
+			return e
+		}
+	}
+	val := expandLocals(info, cfi.Decl.Body, last.Results[0])
+	sub, _ := paths.Subst(info, val, repl).(ast.Expr)
+	return inlineValue(p, fi, sub, depth+1)
+}
